@@ -85,39 +85,51 @@ def raceEv (l : St) : Ev × TState :=
 
 def path (i : Nat) : List Nat := [0, i]
 
+/-- The queued state update of task `i` runs now. -/
+def applyTask (s : Sys) (i : Nat) : Sys :=
+  match s.updq.findIdx? (fun x => x.1 == path i) with
+  | some k => istep s (.apply k true)
+  | none => s
+
 /-- The model's final system for the scenario; `ready` = where the watcher is when the
-    failure's own notifications are sent. -/
-def finalSys (sc : Scen) (ready : Bool) (finishFirst : Bool := false) (modes : List Nat := []) : Option Sys :=
+    failure's own notifications are sent; `late` = queued state updates run after everything
+    else that is enabled (racelate: the watcher's GO_ERROR is already waiting for the mutex). -/
+def finalSys (sc : Scen) (ready : Bool) (finishFirst : Bool := false) (modes : List Nat := []) (late : Bool := false) : Option Sys :=
   let base := mkSys sc
   let vs := (victims sc).map (fun i => (path i, ready))
   let (ev, dst) := raceEv sc.live
+  let fin (s : Sys) : Sys := if late then settleLate 64 s else settle 64 s
   match sc.instant with
-  | "idle" => some (settle 64 (fail sc.kind base vs))
+  | "idle" => some (fin (fail sc.kind base vs))
   | "race" | "racelate" => do
     let h ← holder sc
     if (victims sc).contains h then none   -- the reply that is held back would never come
     let others := (indices sc).filter (· ≠ h)
     let s1 := setLeaves base (others.map path) dst true
     let s2 := { s1 with inflight := some { ev := ev, api := true, pending := [(path h, dst)], ok := true } }
-    pure (settle 64 (fail sc.kind s2 vs))
+    pure (fin (fail sc.kind s2 vs))
   | "raceself" =>
     let others := (indices sc).filter (· ≠ sc.victim)
     let s1 := setLeaves base (others.map path) dst true
     let s2 := { s1 with inflight := some { ev := ev, api := true, pending := [], ok := !(critOf sc sc.victim) } }
-    some (settle 64 (fail sc.kind s2 vs))
+    some (fin (fail sc.kind s2 vs))
   | "burst" =>
-    -- `modes`: per victim, how its own reply's `go updateTaskState(dst)` interleaves with the failure's
-    -- `go updateTaskState(ERROR)`: 0 = reply first; 1 = failure first, the reply overwrites task.state and role;
-    -- 2 = interleaved (task.state keeps the failure's value, the role gets the reply's); 3, 4 see below
+    -- all replies have arrived. `modes`: per victim, how its own reply's `go updateTaskState(dst)` interleaves with
+    -- the failure's `go updateTaskState(ERROR)`: 0 = reply first; 1 = failure first (a schedule of the model: the
+    -- reply then overwrites task.state and role); 2 = the two goroutines interleaved (task.state keeps the failure's
+    -- value, the role gets the reply's); 3, 4 see below. 2–4 split updateTaskState, which the model keeps atomic:
+    -- they are constructed here, on top of schedule 1.
     let vm := (victims sc).zip (modes ++ (victims sc).map (fun _ => 0))
-    let late := vm.filter (fun x => x.2 ≠ 0)
-    let early := (indices sc).filter (fun i => !(late.any (fun x => x.1 == i)))
-    let s2 := { base with inflight := some { ev := ev, api := true, pending := early.map (fun i => (path i, dst)), ok := true } }
-    let s3 := irun s2 (early.map (fun _ => Label.reply true) ++ (if finishFirst then [Label.finish] else []))
+    let lateV := vm.filter (fun x => x.2 ≠ 0)
+    let early := (indices sc).filter (fun i => !(lateV.any (fun x => x.1 == i)))
+    let s2 := { base with inflight := some { ev := ev, api := true, pending := (indices sc).map (fun i => (path i, dst)), ok := true } }
+    let s3 := irun s2 ((indices sc).map (fun _ => Label.arrive))
+    let s3 := early.foldl applyTask s3
+    let s3 := if finishFirst then istep s3 .finish else s3
     let s4 := fail sc.kind s3 vs
-    let s5 := late.foldl (fun (s : Sys) (x : Nat × Nat) =>
+    let s5 := lateV.foldl (fun (s : Sys) (x : Nat × Nat) =>
       let own := ownState s (path x.1) (roleStateAt s.f (path x.1))
-      let s' := setLeaf s (path x.1) dst true
+      let s' := applyTask s x.1
       let s' := if (x.2 == 2 || x.2 == 4) && !(effect sc.kind s3.env.st).roleOnly then { s' with roleOnly := (path x.1, own) :: s'.roleOnly } else s'
       -- 3, 4: as 1, 2, but the failure's forward to the root (`parent.updateState(ERROR)`: no recompute) comes last
       if (x.2 == 3 || x.2 == 4) && critOf sc x.1 && (effect sc.kind s3.env.st).st == some TState.ERROR then
@@ -125,7 +137,7 @@ def finalSys (sc : Scen) (ready : Bool) (finishFirst : Bool := false) (modes : L
         | .agg _ su kids next => { s' with f := .agg .ERROR su kids next }
         | _ => s'
       else s') s4
-    some (settle 64 s5)
+    some (fin s5)
   | _ => none
 
 def racing (sc : Scen) : Bool := sc.instant != "idle"
@@ -235,6 +247,9 @@ def processLine (line : String) : String :=
         let variants (ready : Bool) : List String :=
           if sc.instant == "burst" then
             modeLists.flatMap fun ms => [false, true].filterMap fun ff => (finalSys sc ready ff ms).map (fun x => toString (obsOf sc x))
+          else if sc.instant == "racelate" then
+            -- the watcher's GO_ERROR already waits for the mutex: it can run before the held reply's state update
+            ((finalSys sc ready false [] true).map (fun x => toString (obsOf sc x))).toList
           else []
         let vR := oR :: variants true
         let vB := oB :: variants false
